@@ -171,23 +171,28 @@ def pure_helper_resolver(pkg, cls):
         if name not in folded:
             folded[name] = inline_constants(_copy.deepcopy(f), _pkg, cls)
         f = folded[name]
-        ps = {a.arg for a in f.args.args + f.args.kwonlyargs}
-        for n in ast.walk(f):
-            if isinstance(n, ast.Call) and isinstance(n.func, ast.Attribute) and n.func.attr in _MUTATORS:
-                b = n.func.value
+        return f if _leaves_arguments_alone(f) else None
+    return resolver
+
+
+def _leaves_arguments_alone(f) -> bool:
+    """no in-place edit (mutator call, subscript / attribute store, del) of something reached through a parameter of `f`"""
+    ps = {a.arg for a in f.args.args + f.args.kwonlyargs}
+    for n in ast.walk(f):
+        if isinstance(n, ast.Call) and isinstance(n.func, ast.Attribute) and n.func.attr in _MUTATORS:
+            b = n.func.value
+            while isinstance(b, (ast.Attribute, ast.Subscript)):
+                b = b.value
+            if isinstance(b, ast.Name) and b.id in ps:
+                return False
+        if isinstance(n, (ast.Assign, ast.AugAssign, ast.AnnAssign, ast.Delete)):
+            for t in (n.targets if isinstance(n, (ast.Assign, ast.Delete)) else [n.target]):
+                b = t
                 while isinstance(b, (ast.Attribute, ast.Subscript)):
                     b = b.value
-                if isinstance(b, ast.Name) and b.id in ps:
-                    return None
-            if isinstance(n, (ast.Assign, ast.AugAssign, ast.AnnAssign, ast.Delete)):
-                for t in (n.targets if isinstance(n, (ast.Assign, ast.Delete)) else [n.target]):
-                    b = t
-                    while isinstance(b, (ast.Attribute, ast.Subscript)):
-                        b = b.value
-                    if b is not t and isinstance(b, ast.Name) and b.id in ps:
-                        return None
-        return f
-    return resolver
+                if b is not t and isinstance(b, ast.Name) and b.id in ps:
+                    return False
+    return True
 
 
 class OdeModel:
@@ -224,12 +229,27 @@ class OdeModel:
         func = inline_constants(_copy.deepcopy(self.func), pkg, "TemplateLoader")
         # a generator method that hands records to a consuming loop (`for rec in self._iter_terms(..): rhs[rec.row] += ..`) is put
         # back in place, and a namedtuple / dataclass that only carries the values across is replaced by its fields
-        from .normalize import inline_generator_loops, scalarise_records
+        from .normalize import inline_generator_loops, scalarise_records, scalarise_objects
+
+        def _class_of(e, _pkg=pkg):
+            # a plain helper class of this module (`_Table(..)`) or one nested in TemplateLoader (`self._Table(..)`)
+            ci = None
+            if isinstance(e, ast.Name):
+                ci = _pkg.classes.get(e.id)
+            elif isinstance(e, ast.Attribute) and isinstance(e.value, ast.Name) and e.value.id in ("self", "cls", "TemplateLoader"):
+                ci = _pkg.classes.get("TemplateLoader." + e.attr)
+            if ci is None or ci.file != FILE:
+                return None
+            return inline_constants(_copy.deepcopy(ci.node), _pkg, "TemplateLoader")
+        # a local helper object that only carries the tables and the statements filling them is read as those statements
+        func = scalarise_objects(func, _class_of)
         func = inline_generator_loops(func, _stmt_resolver)
         func = scalarise_records(func, lambda name, _pkg=pkg: record_fields(_pkg, name))
         func = inline_stmt_calls(func, _stmt_resolver)
         # `rhs, jac = self._stage(..)` with the stage put back leaves `rhs, jac = <the stage's locals>`: the same tables under one name
-        from .normalize import coalesce_copies
+        from .normalize import coalesce_copies, join_piece_tables
+        # a table of piece lists joined once at the end (`T[i].append(t)` .. `["".join(ps) for ps in T]`) is the table of accumulated texts
+        func = join_piece_tables(func)
         func = coalesce_copies(func)
         # a table kept as a list of rows and flattened once (`rows[r][c] += t` .. `list(chain.from_iterable(rows))`) is the flat table
         from .normalize import flatten_row_tables, flatten_keyed_tables
@@ -239,7 +259,11 @@ class OdeModel:
         # one loop over a concatenation (`for sign, i in chain(zip(repeat(" - "), R), zip(repeat(" + "), P))`) is the loops it abbreviates
         from .normalize import split_concat_loops
         func = split_concat_loops(func)
-        self.flow = Flow(func, FILE, proc_resolver=_resolver, resolver=_pure_resolver, records=pkg.records())
+        # ... and a small pure helper FUNCTION of the module, called by its bare name (`_wrap(expr)`), is the value it returns as well
+        def _func_resolver(name, _pkg=pkg):
+            f = _pkg.functions.get((FILE, name))
+            return _fold(f) if f is not None and _leaves_arguments_alone(f) else None
+        self.flow = Flow(func, FILE, proc_resolver=_resolver, resolver=_pure_resolver, func_resolver=_func_resolver, records=pkg.records())
         fl = self.flow
         self._expand_built_lists(fl)
         self._index_slice_loops(fl)
@@ -397,10 +421,39 @@ class OdeModel:
     def is_n_spec(self, v) -> bool:
         return simp(v) == self.N_SPEC
 
-    def is_n_eqns(self, v) -> bool:
+    def _list_len(self, v):
+        """(number of species-many parts, constant part, thermal flag added?) for a list value whose length is a*n_spec + b
+        [+ has_thermal], else None: a comprehension over the species list, a display, `L ++ [x]`, `A + B`, and the two arms of
+        `if has_thermal: L.append(x)`"""
+        v = simp(v)
+        if v[0] == "comp" and v[1] == "list" and len(v[3]) == 1 and not v[3][0][2] and simp(v[3][0][1]) == self.SPEC:
+            return (1, 0, False)
+        if v[0] == "list" and not any(e[0] == "star" for e in v[1]):
+            return (0, len(v[1]), False)
+        if v[0] == "appended":
+            a = self._list_len(v[1])
+            return (a[0], a[1] + 1, a[2]) if a else None
+        if v[0] == "binop" and v[1] == "Add":
+            a, b = self._list_len(v[2]), self._list_len(v[3])
+            return (a[0] + b[0], a[1] + b[1], False) if a and b and not a[2] and not b[2] else None
+        if v[0] in ("phi", "ifexp") and self.is_has_thermal(v[1]):
+            a, b = self._list_len(v[2]), self._list_len(v[3])
+            if a and b and not a[2] and not b[2] and a[0] == b[0] and a[1] == b[1] + 1:
+                return (b[0], b[1], True)
+        return None
+
+    def is_n_eqns(self, v, guards=()) -> bool:
+        """`guards`: the conditions in force where v is evaluated -- under `if has_thermal` the number of equations is n_spec + 1"""
         v = simp(v)
         if v == ("call", ("global", "len"), (("acc", self.RHSNAME),), ()):
             return True         # rhs is created as ['0.0'] * n_eqns (C01.R1) and only its entries are re-assigned
+        if v[0] == "call" and v[1] == ("global", "len") and len(v[2]) == 1 and not v[3] and self._list_len(v[2][0]) == (1, 0, True):
+            # the length of the list of abundance symbols, one per species plus the temperature when there is a thermal equation:
+            # n_spec + has_thermal, which is n_eqns wherever a species exists (the sites that index a species' row)
+            return True
+        if guards and v[0] == "binop" and v[1] == "Add" and any(p and self.is_has_thermal(g) for g, p in guards) and \
+                ((self.is_n_spec(v[2]) and v[3] == ("const", 1)) or (self.is_n_spec(v[3]) and v[2] == ("const", 1))):
+            return True
         if v[0] == "call" and v[1] == ("global", "len") and len(v[2]) == 1 and not v[3] and v[2][0][0] == "binop" and v[2][0][1] == "Mult":
             # len([c] * n) is n (n_eqns >= 1): the length of the RHS table read where the table is a helper's parameter
             a, b = v[2][0][2], v[2][0][3]
@@ -418,7 +471,7 @@ class OdeModel:
                 return (self.is_n_spec(l) and self.is_has_thermal(r)) or (self.is_n_spec(r) and self.is_has_thermal(l))
         return False
 
-    def decode_flat(self, idx):
+    def decode_flat(self, idx, guards=()):
         """row*n_eqns + col  ->  (row, col) or None."""
         idx = simp(idx)
         if idx[0] != "binop" or idx[1] != "Add":
@@ -426,7 +479,7 @@ class OdeModel:
         for a, b in ((idx[2], idx[3]), (idx[3], idx[2])):
             if a[0] == "binop" and a[1] == "Mult":
                 for r, n in ((a[2], a[3]), (a[3], a[2])):
-                    if self.is_n_eqns(n):
+                    if self.is_n_eqns(n, guards):
                         return r, b
         # a longer sum (`rowstart + col + 1`, `col + n * row`): the one term carrying the factor n_eqns is the row part, the rest the column
         terms = []
@@ -437,7 +490,7 @@ class OdeModel:
             else:
                 terms.append(x)
         flat(idx)
-        rows = [(i, r) for i, t in enumerate(terms) if t[0] == "binop" and t[1] == "Mult" for r, n in ((t[2], t[3]), (t[3], t[2])) if self.is_n_eqns(n)]
+        rows = [(i, r) for i, t in enumerate(terms) if t[0] == "binop" and t[1] == "Mult" for r, n in ((t[2], t[3]), (t[3], t[2])) if self.is_n_eqns(n, guards)]
         if len(rows) == 1 and len(terms) >= 2:
             i, r = rows[0]
             rest = [t for j, t in enumerate(terms) if j != i]
@@ -507,7 +560,7 @@ class OdeModel:
         if role == "rhs":
             row, col = idx, None
         else:
-            d = self.decode_flat(idx)
+            d = self.decode_flat(idx, tuple((simp(g), p) for g, p in f.guards))
             if d is None:
                 # wrong only when it is arithmetic over understood positions that does not have the row-major form (`col*n + row` is
                 # decoded and caught by the row / column rules); a slice, a tuple key, an index computed elsewhere is not understood
